@@ -30,6 +30,10 @@ def run(seed):
     for _ in range(rnd.randint(0, 2)):
         i = rnd.choice(code_idx)
         ctx.insert_at(B.gbs[i], 0, literal_patch(same.replace("{L}", f"L{rnd.choice(code_idx)}").replace("ret", "nop")))
+    # ... and through one registration whose scope matches every code block: each match is an insertion of its own
+    if rnd.random() < 0.4 and not case.scope_groups and not any(t != "ins" and off == 0 for (_, t, off, _, _, _) in case.mods):
+        from gtirb_rewriting import AllBlocksScope, BlockPosition
+        ctx.register_insert(AllBlocksScope(BlockPosition.ENTRY), literal_patch(rnd.choice(["jne .Lsc\nnop\n.Lsc:\nnop", same.replace("{L}", "L0").replace("ret", "nop")])))
     irgen.register(case, B, ctx, literal_patch)
     err = None
     try:
